@@ -13,6 +13,7 @@ MISSPELLINGS = ["tset", "wrold", "qzxvb", "mispeled", "gardden", "Tset", "caféi
 CLAUSES = [
     "We saw a {w} here", "the {w} is back", "it was a {w} again", "an apple and a apple", "it is better then that", "the the end",
     "this one is fine", "nothing to report here", "\U0001F600 a {w} with emoji", "they could of left",
+    "see [a {w} link](http://example.com) here", "Dies ist ein deutscher Satz mit einem {w} und vielen anderen Worten darin",
 ]
 
 _cache = {}
